@@ -40,6 +40,105 @@ def dvOracle (want2 : List Rat) (best : Float) (o : List String) : String :=
       | _, _, _ => "pass"
     go 0 want2 ws ms
 
+/-! ## 2-D heightfield grid lookups -/
+
+def prep {α} (p : P α) : Nat → P (List α)
+  | 0 => pure []
+  | k + 1 => do let x ← p; let xs ← prep p k; pure (x :: xs)
+
+def phf2 : P (HF2 Float) := do
+  let n ← pnat
+  let hs ← prep pf n
+  let st ← prep pnat (n - 1)
+  let sc ← pv2
+  pure ⟨hs.toArray, (st.map fun s => s != 0).toArray, sc⟩
+
+/-- exact abscissa of vertex `i` of a heightfield with `n` cells: `scale.x * (-1/2 + i/n)` -/
+def vx (sx : Rat) (n i : Nat) : Rat := sx * (-(1 / 2 : Rat) + (i : Rat) / (n : Rat))
+
+structure HfQ where
+  n : Nat
+  sx : Rat
+  sy : Rat
+  hs : Array Rat
+  st : Array Bool
+  tol : Rat
+
+def hfq (h : HF2 Float) : HfQ :=
+  let sx := q h.scale.x
+  ⟨h.heights.size - 1, sx, q h.scale.y, h.heights.map q, h.status, (1 + rabs sx) / 1000000000⟩
+
+def hfDomain (h : HF2 Float) : Bool :=
+  h.heights.size ≥ 2 && h.status.size + 1 == h.heights.size && h.heights.all FloatIO.isFinite &&
+  FloatIO.isFinite h.scale.x && FloatIO.isFinite h.scale.y && h.scale.x > 0 && h.scale.y > 0
+
+/-- cell `i` clearly overlaps `[x0, x1]` in the open sense -/
+def clearX (g : HfQ) (i : Nat) (x0 x1 : Rat) : Bool := x0 < vx g.sx g.n (i + 1) - g.tol && vx g.sx g.n i + g.tol < x1
+/-- cell `i` overlaps `[x0, x1]` in the closed sense, up to the tolerance -/
+def looseX (g : HfQ) (i : Nat) (x0 x1 : Rat) : Bool := x0 ≤ vx g.sx g.n (i + 1) + g.tol && vx g.sx g.n i - g.tol ≤ x1
+def cellY (g : HfQ) (i : Nat) : Rat × Rat :=
+  let a := g.sy * g.hs.getD i 0; let b := g.sy * g.hs.getD (i + 1) 0
+  (rmin a b, rmax a b)
+
+def hf2Handler (fn : String) : Option Handler :=
+  match fn with
+  | "hf2_cell" => some {
+      model := fun a => run (do let h ← phf2; let p ← pv2; pend
+                                pure (match h.cellAtPoint p with | none => "none" | some i => s!"some {i}")) a
+      oracle := fun a o => match run (do let h ← phf2; let p ← pv2; pend; pure (h, p)) a with
+        | none => "skip bad-args"
+        | some (h, p) =>
+          if !(hfDomain h && FloatIO.isFinite p.x) then "skip outside-domain" else
+          let g := hfq h; let x := q p.x
+          match o with
+          | ["none"] => if -g.sx / 2 + g.tol ≤ x && x ≤ g.sx / 2 - g.tol then "fail none-for-a-point-above-the-heightfield" else "pass"
+          | ["some", t] => match t.toNat? with
+            | none => "fail unparsable-output"
+            | some i =>
+              if i ≥ g.n then s!"fail cell-index-out-of-range {i}"
+              else if vx g.sx g.n i - g.tol ≤ x && x ≤ vx g.sx g.n (i + 1) + g.tol then "pass"
+              else s!"fail point-not-above-reported-cell {i}"
+          | _ => "fail unparsable-output" }
+  | "hf2_range" => some {
+      model := fun a => run (do let h ← phf2; let b ← pbox2; pend
+                                let r := h.unclampedRange b; pure s!"{r.1} {r.2}") a
+      oracle := fun a o => match run (do let h ← phf2; let b ← pbox2; pend; pure (h, b)) a with
+        | none => "skip bad-args"
+        | some (h, b) =>
+          if !(hfDomain h && valid2 (qb2 b) && FloatIO.isFinite b.mins.x && FloatIO.isFinite b.mins.y && FloatIO.isFinite b.maxs.x && FloatIO.isFinite b.maxs.y) then "skip outside-domain" else
+          let g := hfq h
+          match o.map String.toInt? with
+          | [some s, some e] =>
+            match (List.range g.n).find? (fun i => clearX g i (q b.mins.x) (q b.maxs.x) && !(s ≤ (i : Int) && (i : Int) < e)) with
+            | none => "pass"
+            | some i => s!"fail overlapping-cell-outside-range {i}"
+          | _ => "fail unparsable-output" }
+  | "hf2_elems" => some {
+      model := fun a => run (do let h ← phf2; let b ← pbox2; pend
+                                pure (" ".intercalate ("ids" :: (h.mapElements b).map toString))) a
+      oracle := fun a o => match run (do let h ← phf2; let b ← pbox2; pend; pure (h, b)) a with
+        | none => "skip bad-args"
+        | some (h, b) =>
+          if !(hfDomain h && valid2 (qb2 b) && FloatIO.isFinite b.mins.x && FloatIO.isFinite b.mins.y && FloatIO.isFinite b.maxs.x && FloatIO.isFinite b.maxs.y) then "skip outside-domain" else
+          let g := hfq h; let bb := qb2 b
+          let ty : Rat := (1 + rabs g.sy) / 1000000000
+          match o with
+          | "ids" :: ts => match ts.mapM String.toNat? with
+            | none => "fail unparsable-output"
+            | some ids =>
+              let missed := (List.range g.n).find? fun i =>
+                g.st.getD i false && clearX g i bb.mins.x bb.maxs.x &&
+                bb.mins.y + ty ≤ (cellY g i).2 && (cellY g i).1 ≤ bb.maxs.y - ty && !ids.contains i
+              let wrong := ids.find? fun i =>
+                !(i < g.n && g.st.getD i false && looseX g i bb.mins.x bb.maxs.x &&
+                  bb.mins.y - ty ≤ (cellY g i).2 && (cellY g i).1 ≤ bb.maxs.y + ty)
+              match missed, wrong with
+              | some i, _ => s!"fail overlapping-cell-not-reported {i}"
+              | _, some i => s!"fail reported-cell-does-not-overlap {i}"
+              | none, none => if ids.zip (ids.drop 1) |>.all (fun (x, y) => x < y) then "pass" else "fail ids-not-increasing"
+          | _ => "fail unparsable-output" }
+  | _ => none
+
 def handler3 (fn : String) : Option Handler :=
   match fn with
   | "dv3_visit" => some {
@@ -60,6 +159,6 @@ def handler3 (fn : String) : Option Handler :=
         | some (ab, best, x) =>
           if !((ab :: x).all fun b => valid2 (qb2 b)) then "skip invalid-box" else
           dvOracle (x.map fun u => boxDist2sq (qb2 u) (qb2 ab)) best o }
-  | _ => none
+  | _ => hf2Handler fn
 
 end C07
